@@ -135,6 +135,17 @@ func parseCase(s string) (*kase, error) {
 			if e.dt, err = strconv.ParseInt(t[2:], 10, 64); err != nil || e.dt < 0 {
 				return nil, errors.New("bad tick")
 			}
+		case 'q', 'r': // split lookup: <node>.<client>
+			p := strings.Split(t[2:], ".")
+			if len(p) != 2 {
+				return nil, errors.New("bad lookup")
+			}
+			n, err1 := strconv.Atoi(p[0])
+			x, err2 := strconv.Atoi(p[1])
+			if err1 != nil || err2 != nil || n < 0 || n >= k.nn || x < 0 {
+				return nil, errors.New("bad lookup")
+			}
+			e.c.node, e.c.client = n, x
 		case 'x':
 			n, err := strconv.Atoi(t[2:])
 			if err != nil || n < 0 || n >= k.nn {
@@ -155,7 +166,8 @@ func parseCase(s string) (*kase, error) {
 	}
 	if k.sched != "" {
 		n := len(k.evs)
-		if n < 2 || k.evs[n-1].code == 't' || k.evs[n-2].code == 't' || k.evs[n-1].c.node == k.evs[n-2].c.node {
+		bad := func(c byte) bool { return c == 't' || c == 'q' || c == 'r' || c == 'x' }
+		if n < 2 || bad(k.evs[n-1].code) || bad(k.evs[n-2].code) || k.evs[n-1].c.node == k.evs[n-2].c.node {
 			return nil, errors.New("sched: the last two events must be handler calls on different nodes")
 		}
 	}
@@ -418,9 +430,30 @@ func runCase(k *kase) (res runResult) {
 		}
 	}()
 
+	lookups := map[[2]int]*pendingLookup{}
+	defer func() {
+		for _, p := range lookups {
+			p.finish()
+		}
+	}()
 	deliver := func(e event) error {
 		var herr error
 		switch e.code {
+		case 'q':
+			key := [2]int{e.c.node, e.c.client}
+			if old := lookups[key]; old != nil {
+				old.finish()
+			}
+			lookups[key] = startLookup(ctx, stores[e.c.node], nodeName(e.c.node), time.Duration(k.ttl)*time.Millisecond, int64(e.c.client))
+		case 'r':
+			key := [2]int{e.c.node, e.c.client}
+			p := lookups[key]
+			if p == nil {
+				herr = errors.New("no lookup in flight")
+				break
+			}
+			delete(lookups, key)
+			herr = p.finish().err
 		case 'o':
 			rw := &fakeRW{id: e.c.String()}
 			_, herr = nodes[e.c.node].sm.CreateConnection(rw, rw)
